@@ -155,7 +155,10 @@ fn body_source(c: &DelegCase) -> String {
             (recv, "")
         };
         let _ = self_rebind;
-        s.push_str(&format!("        let v{k} = Tr::r{m}({recv_expr}, {});\n", e.print()));
+        s.push_str(&format!(
+            "        let v{k} = Tr::r{m}({recv_expr}, {});\n",
+            e.print()
+        ));
     }
     s.push_str(&format!("        {}\n", c.body.result.print()));
     s
@@ -164,9 +167,20 @@ fn body_source(c: &DelegCase) -> String {
 pub fn source(c: &DelegCase) -> String {
     let mut s = String::new();
     s.push_str("static LOG: Mutex<Vec<String>> = Mutex::new(Vec::new());\nfn log(s: String) { LOG.lock().unwrap().push(s) }\nfn take() -> Vec<String> { std::mem::take(&mut *LOG.lock().unwrap()) }\n\n");
-    let sized = if matches!(c.recv, Recv::Value | Recv::RcShared | Recv::RcSole | Recv::ArcShared | Recv::ArcSole) { ": Sized" } else { "" };
+    let sized = if matches!(
+        c.recv,
+        Recv::Value | Recv::RcShared | Recv::RcSole | Recv::ArcShared | Recv::ArcSole
+    ) {
+        ": Sized"
+    } else {
+        ""
+    };
     let rd = recv_decl(c.recv);
-    let rd_req = if c.recv == Recv::PinMut { "self: std::pin::Pin<&mut Self>" } else { rd };
+    let rd_req = if c.recv == Recv::PinMut {
+        "self: std::pin::Pin<&mut Self>"
+    } else {
+        rd
+    };
     s.push_str(&format!(
         "#[unimock(api=M)]\npub trait Tr{sized} {{\n    fn r0({rd_req}, x: u32) -> u32;\n    fn r1({rd_req}, x: u32) -> u32;\n    fn d({rd}, a: u32, b: u32) -> u32 {{\n{}    }}\n}}\n\n",
         body_source(c)
@@ -193,9 +207,15 @@ pub fn source(c: &DelegCase) -> String {
             }
         }
     }
-    let delegated = c.history.iter().filter(|o| matches!(o, Op::Delegated(..))).count();
+    let delegated = c
+        .history
+        .iter()
+        .filter(|o| matches!(o, Op::Delegated(..)))
+        .count();
     if c.explicit_default_impl && delegated > 0 && !c.ordered {
-        clauses.push(format!("M::d.each_call(&|m| m.func(|_, _| true)).applies_default_impl().n_times({delegated})"));
+        clauses.push(format!(
+            "M::d.each_call(&|m| m.func(|_, _| true)).applies_default_impl().n_times({delegated})"
+        ));
     }
     s.push_str("    let mut dc = unimock::verif::DynClause::new();\n");
     for cl in &clauses {
@@ -231,18 +251,26 @@ pub fn source(c: &DelegCase) -> String {
             Op::Delegated(a, b) => format!("<Unimock as Tr>::d({recv}, {a}u32, {b}u32)"),
         };
         // by-value / sole-owner receivers consume the mock: `h` is moved by the last call
-        if matches!(c.recv, Recv::Value) || (matches!(c.recv, Recv::RcSole | Recv::ArcSole) && last) {
-            s.push_str(&format!("        results.push(format!(\"{{}}\", {call}));\n        return results;\n"));
+        if matches!(c.recv, Recv::Value) || (matches!(c.recv, Recv::RcSole | Recv::ArcSole) && last)
+        {
+            s.push_str(&format!(
+                "        results.push(format!(\"{{}}\", {call}));\n        return results;\n"
+            ));
             break;
         } else {
-            s.push_str(&format!("        results.push(format!(\"{{}}\", {call}));\n"));
+            s.push_str(&format!(
+                "        results.push(format!(\"{{}}\", {call}));\n"
+            ));
         }
     }
-    let consumed = matches!(c.recv, Recv::Value) || (matches!(c.recv, Recv::RcSole | Recv::ArcSole) && !c.history.is_empty());
+    let consumed = matches!(c.recv, Recv::Value)
+        || (matches!(c.recv, Recv::RcSole | Recv::ArcSole) && !c.history.is_empty());
     if !consumed {
         // verification: shared handles are dropped here, the plain mock is verified explicitly
         match c.recv {
-            Recv::RcShared | Recv::ArcShared | Recv::RcSole | Recv::ArcSole => s.push_str("        drop(h);\n        results\n"),
+            Recv::RcShared | Recv::ArcShared | Recv::RcSole | Recv::ArcSole => {
+                s.push_str("        drop(h);\n        results\n")
+            }
             _ => s.push_str("        h.verify();\n        results\n"),
         }
     }
@@ -266,41 +294,71 @@ pub fn judge(c: &DelegCase, line: &str) -> Result<CaseInfo, String> {
         if c.ordered { "ordered" } else { "unordered" }
     );
     if parts[2] != "ok" {
-        return Err(format!("{desc}: the run panicked instead of delegating: {}", parts[2]));
+        return Err(format!(
+            "{desc}: the run panicked instead of delegating: {}",
+            parts[2]
+        ));
     }
     let want_log: Vec<String> = calls.iter().map(|(m, x)| format!("r{m}:{x}")).collect();
-    let log: Vec<&str> = if parts[0].is_empty() { vec![] } else { parts[0].split('\u{2}').collect() };
+    let log: Vec<&str> = if parts[0].is_empty() {
+        vec![]
+    } else {
+        parts[0].split('\u{2}').collect()
+    };
     if log != want_log.iter().map(|s| s.as_str()).collect::<Vec<_>>() {
         return Err(format!("{desc}: required-method patterns saw {log:?}, inlining the default body gives {want_log:?}"));
     }
     let want_res: Vec<String> = results.iter().map(|r| format!("{r}")).collect();
-    let res: Vec<&str> = if parts[1].is_empty() { vec![] } else { parts[1].split('\u{2}').collect() };
+    let res: Vec<&str> = if parts[1].is_empty() {
+        vec![]
+    } else {
+        parts[1].split('\u{2}').collect()
+    };
     if res != want_res.iter().map(|s| s.as_str()).collect::<Vec<_>>() {
-        return Err(format!("{desc}: results {res:?}, inlining the default body gives {want_res:?}"));
+        return Err(format!(
+            "{desc}: results {res:?}, inlining the default body gives {want_res:?}"
+        ));
     }
-    let delegated = c.history.iter().filter(|o| matches!(o, Op::Delegated(..))).count();
-    let interleaved = c.history.windows(3).any(|w| matches!(w[0], Op::Delegated(..)) && matches!(w[1], Op::Direct(..)) && matches!(w[2], Op::Delegated(..)));
-    Ok(CaseInfo::new(c.body.calls.len() >= 2 && (interleaved || delegated >= 1 && c.history.len() >= 2))
-        .class(match c.recv {
-            Recv::Ref => "recv:&self",
-            Recv::Mut => "recv:&mut self",
-            Recv::Value => "recv:self",
-            Recv::RcShared => "recv:Rc<Self>(outer handle alive)",
-            Recv::RcSole => "recv:Rc<Self>(sole owner)",
-            Recv::ArcShared => "recv:Arc<Self>(outer handle alive)",
-            Recv::ArcSole => "recv:Arc<Self>(sole owner)",
-            Recv::PinMut => "recv:Pin<&mut Self>",
-        })
-        .class_if(c.ordered, "required:ordered")
-        .class_if(!c.ordered, "required:unordered")
-        .class_if(c.explicit_default_impl && !c.ordered, "applies_default_impl-clause")
-        .class_if(interleaved, "direct-call-between-delegated")
-        .class_if(delegated == 0, "no-delegated-call")
-        .class_if(c.body.calls.is_empty(), "body-calls-nothing"))
+    let delegated = c
+        .history
+        .iter()
+        .filter(|o| matches!(o, Op::Delegated(..)))
+        .count();
+    let interleaved = c.history.windows(3).any(|w| {
+        matches!(w[0], Op::Delegated(..))
+            && matches!(w[1], Op::Direct(..))
+            && matches!(w[2], Op::Delegated(..))
+    });
+    Ok(CaseInfo::new(
+        c.body.calls.len() >= 2 && (interleaved || delegated >= 1 && c.history.len() >= 2),
+    )
+    .class(match c.recv {
+        Recv::Ref => "recv:&self",
+        Recv::Mut => "recv:&mut self",
+        Recv::Value => "recv:self",
+        Recv::RcShared => "recv:Rc<Self>(outer handle alive)",
+        Recv::RcSole => "recv:Rc<Self>(sole owner)",
+        Recv::ArcShared => "recv:Arc<Self>(outer handle alive)",
+        Recv::ArcSole => "recv:Arc<Self>(sole owner)",
+        Recv::PinMut => "recv:Pin<&mut Self>",
+    })
+    .class_if(c.ordered, "required:ordered")
+    .class_if(!c.ordered, "required:unordered")
+    .class_if(
+        c.explicit_default_impl && !c.ordered,
+        "applies_default_impl-clause",
+    )
+    .class_if(interleaved, "direct-call-between-delegated")
+    .class_if(delegated == 0, "no-delegated-call")
+    .class_if(c.body.calls.is_empty(), "body-calls-nothing"))
 }
 
 fn expr(max_v: usize) -> BoxedStrategy<E> {
-    let mut leaves: Vec<BoxedStrategy<E>> = vec![Just(E::A).boxed(), Just(E::B).boxed(), (0..50u32).prop_map(E::Const).boxed()];
+    let mut leaves: Vec<BoxedStrategy<E>> = vec![
+        Just(E::A).boxed(),
+        Just(E::B).boxed(),
+        (0..50u32).prop_map(E::Const).boxed(),
+    ];
     if max_v > 0 {
         leaves.push((0..max_v).prop_map(E::V).boxed());
     }
@@ -316,7 +374,8 @@ fn expr(max_v: usize) -> BoxedStrategy<E> {
 
 fn body_strategy() -> impl Strategy<Value = Body> {
     (0..=3usize).prop_flat_map(|n| {
-        let calls: Vec<BoxedStrategy<(u8, E)>> = (0..n).map(|k| (0..2u8, expr(k)).boxed()).collect();
+        let calls: Vec<BoxedStrategy<(u8, E)>> =
+            (0..n).map(|k| (0..2u8, expr(k)).boxed()).collect();
         (calls, expr(n)).prop_map(|(calls, result)| Body { calls, result })
     })
 }
@@ -352,7 +411,15 @@ pub fn case_strategy() -> impl Strategy<Value = DelegCase> {
 pub const RULE: &str = "programs = generated traits with two required methods and a provided method whose default body (drawn from an expression grammar) calls 0-3 required methods with values derived from its arguments and earlier results and combines the results; receiver kinds &self, &mut self, self, Rc<Self> / Arc<Self> (with an outer handle alive, and as sole owner), Pin<&mut Self>; required methods configured unordered with exact counts or as one ordered next_call sequence; histories of 1-6 operations mixing direct required calls and delegated calls, the provided method unmentioned or mentioned with applies_default_impl(). Non-trivial = the body calls >= 2 required methods and the history has a delegated call plus another operation; distinct = distinct case";
 
 fn spec<'a>() -> Spec<'a, DelegCase> {
-    Spec { project: "C15", prelude: crate::c05::PRELUDE, source: &source, judge: &judge, nbins: 16, max_shrink_steps: 30, extra_deps: "" }
+    Spec {
+        project: "C15",
+        prelude: crate::c05::PRELUDE,
+        source: &source,
+        judge: &judge,
+        nbins: 16,
+        max_shrink_steps: 30,
+        extra_deps: "",
+    }
 }
 
 pub fn run(ctx: &Ctx) -> Verdict {
@@ -360,11 +427,13 @@ pub fn run(ctx: &Ctx) -> Verdict {
     v.explanation = "The generator inlines the default body: the sequence of required-method arguments seen by the patterns (direct and delegated calls interleaved), every result, and the final verification (exact counts / a fully consumed ordered sequence shared between direct and delegated calls) must be what inlining predicts.".into();
     v.assumptions = vec!["clause lists of run-time length use the DynClause hook".into()];
     let known = vcore::known_finding("C15", SIG_SOLE_RC);
-    v.subs.push(crate::replay_corpus(ctx, &|sub, case| replay(sub, case)));
+    v.subs
+        .push(crate::replay_corpus(ctx, &|sub, case| replay(sub, case)));
     let n = ctx.tier.pick(1280, 24_000) as usize;
     let exclude_sole = known.is_some();
     if let Some(f) = &known {
-        v.known_findings.push((SIG_SOLE_RC.to_string(), f.what_fails.clone()));
+        v.known_findings
+            .push((SIG_SOLE_RC.to_string(), f.what_fails.clone()));
     }
     let batches = n.div_ceil(1600);
     for b in 0..batches {
@@ -378,9 +447,18 @@ pub fn run(ctx: &Ctx) -> Verdict {
             }
             c
         });
-        let sub = if batches == 1 { "delegation".to_string() } else { format!("delegation-{b}") };
-        v.subs.push(e2::run(ctx, &sub, strat, (n / batches).max(1), &spec()));
-        if v.subs.last().map(|s| s.failure.is_some() || s.inconclusive.is_some()).unwrap_or(false) {
+        let sub = if batches == 1 {
+            "delegation".to_string()
+        } else {
+            format!("delegation-{b}")
+        };
+        v.subs
+            .push(e2::run(ctx, &sub, strat, (n / batches).max(1), &spec()));
+        if v.subs
+            .last()
+            .map(|s| s.failure.is_some() || s.inconclusive.is_some())
+            .unwrap_or(false)
+        {
             break;
         }
     }
@@ -390,7 +468,8 @@ pub fn run(ctx: &Ctx) -> Verdict {
 pub const SIG_SOLE_RC: &str = "sole-owner-rc-arc-receiver-delegation-panics";
 
 pub fn replay(_sub: &str, case: Value) -> Result<(), String> {
-    let c: DelegCase = serde_json::from_value(case).map_err(|e| format!("HARNESS: bad case: {e}"))?;
+    let c: DelegCase =
+        serde_json::from_value(case).map_err(|e| format!("HARNESS: bad case: {e}"))?;
     match e2::run_single(&spec(), &c) {
         Ok(r) => r.map(|_| ()),
         Err(e) => Err(format!("HARNESS: {e}")),
